@@ -453,6 +453,45 @@ fn meaning(dag: &DagSpec, points: &[Vec<Fl>], mutate: u16, case: &Case, cx: &mut
         if let Some((c, n)) = &from_text {
             routes.push(("from_text", c.eval(*n, &vars).unwrap()));
         }
+        // every node of the expression, not only the root: a rewrite deep
+        // inside is not masked by the operations above it.  One forward pass
+        // of the same "decisive" rule
+        {
+            let mut dec = vec![true; plen];
+            for q in 0..plen {
+                let mut d = vals[q].is_finite();
+                if q >= nv {
+                    let ops = dag.operands(q - nv);
+                    d &= ops.iter().all(|o| dec[*o]);
+                    match dag.nodes[q - nv] {
+                        NodeSpec::U(UnOp::Rand, _) if ops.iter().any(|o| vals[*o] == 0.0) => d = false,
+                        NodeSpec::B(BinOp::Atan2 | BinOp::Mix, _, _) if ops.iter().any(|o| vals[*o] == 0.0) => {
+                            d = false
+                        }
+                        _ => {}
+                    }
+                }
+                dec[q] = d;
+            }
+            for q in nv..plen {
+                if !dec[q] {
+                    continue;
+                }
+                cx.ev.count("decisive_inner_node_comparisons");
+                let got = ctx.eval(pool_a[q], &vars).unwrap();
+                if !(got == vals[q]) {
+                    fail!(
+                        "meaning-constructors",
+                        "built through constructors: inner node {} evaluates to {} but the un-rewritten expression gives {} at {:?} ({:?})",
+                        q - nv,
+                        fl_to_string(got),
+                        fl_to_string(vals[q]),
+                        &p[..nv],
+                        ctx.get_op(pool_a[q])
+                    );
+                }
+            }
+        }
         for (name, got) in routes {
             cx.ev.count("decisive_value_comparisons");
             if !(got == want) {
@@ -598,8 +637,42 @@ impl Prop for P {
             1 => gens::fl_any(),
         ]
         .boxed();
+        // a second mix aimed at the algebraic rewrites themselves: short
+        // programs over negation, the four arithmetic operations, abs, square,
+        // sqrt, recip, min, max and the constants the identities mention, so
+        // that every pair "operation applied to the result of an operation"
+        // occurs often
+        let mut pa = gens::DagParams::all(tier.pick(10, 16));
+        pa.min_vars = 1;
+        pa.max_vars = 3;
+        pa.w_const = 4;
+        for (w, o) in pa.un.iter_mut() {
+            *w = match o {
+                UnOp::Neg => 8,
+                UnOp::Abs | UnOp::Square => 4,
+                UnOp::Sqrt | UnOp::Recip => 3,
+                UnOp::Not => 2,
+                _ => 0,
+            };
+        }
+        pa.un.retain(|(w, _)| *w > 0);
+        for (w, o) in pa.bin.iter_mut() {
+            *w = match o {
+                BinOp::Add | BinOp::Sub | BinOp::Mul => 8,
+                BinOp::Div => 4,
+                BinOp::Min | BinOp::Max | BinOp::And | BinOp::Or => 3,
+                _ => 0,
+            };
+        }
+        pa.bin.retain(|(w, _)| *w > 0);
+        pa.consts = prop_oneof![
+            6 => prop_oneof![Just(Fl(0.0)), Just(Fl(-0.0)), Just(Fl(1.0)), Just(Fl(-1.0)), Just(Fl(2.0)), Just(Fl(0.5)), Just(Fl(-2.0))],
+            2 => gens::fl_grid(),
+            1 => gens::fl_special(),
+        ]
+        .boxed();
         let meaning = (
-            gens::dag(p),
+            prop_oneof![3 => gens::dag(p), 2 => gens::dag(pa)],
             gens::points(1..=6, prop_oneof![3 => gens::fl_moderate(), 2 => gens::fl_special(), 1 => gens::fl_any()].boxed()),
             any::<u16>(),
         )
